@@ -1,8 +1,10 @@
 \* the pyramid entry check as read in traversal.GetChunkHashes (no upper length bound):
+\* (thorough: pyramid entry points + retrieval of the full chunk and the single-owner chunk, which interact
+\*  with them through the store; the complete retrieval part is checked in MCIngest_thorough.cfg)
 \* C06 holds except for over-long pyramid entries with a valid CS+8-byte prefix
 SPECIFICATION Spec
 CONSTANTS PyramidUpperBound = FALSE
-  RetrAddrs = {"c1", "c2", "l3", "s1"}
-  PairMode = "all"
+  RetrAddrs = {"c2", "s1"}
+  PairMode = "few"
 INVARIANTS SafeUpToOverlongPyramidEntries RetrievalCheckIsDefinition
 CHECK_DEADLOCK FALSE
